@@ -18,17 +18,19 @@ structure CfgFlags where
   ow : Bool := false
   keep : Bool := false
   split : Bool := false
+  trailing : Bool := false      -- the served directories are configured with a trailing separator
   dup : Nat := 0
 
 def parseFlags (s : String) : CfgFlags :=
   let cs := s.toList
   let digits := String.ofList (cs.filter Char.isDigit)
   { single := cs.contains 's', ro := cs.contains 'r', ow := cs.contains 'o', keep := cs.contains 'k',
-    split := cs.contains 'x', dup := digits.toNat?.getD 0 }
+    split := cs.contains 'x', trailing := cs.contains 't', dup := digits.toNat?.getD 0 }
 
 def mkCfg (root : Bytes) (fl : CfgFlags) : SrvCfg :=
-  let sd := if fl.split then root ++ bytesOfString "/send" else root ++ bytesOfString "/srv"
-  let rd := if fl.split then root ++ bytesOfString "/recv" else root ++ bytesOfString "/srv"
+  let tail := if fl.trailing then bytesOfString "/" else []
+  let sd := (if fl.split then root ++ bytesOfString "/send" else root ++ bytesOfString "/srv") ++ tail
+  let rd := (if fl.split then root ++ bytesOfString "/recv" else root ++ bytesOfString "/srv") ++ tail
   { singlePort := fl.single, readOnly := fl.ro, overwrite := fl.ow, cleanOnError := !fl.keep, dup := fl.dup,
     sendDir := sd, recvDir := rd }
 
